@@ -12,16 +12,16 @@ RULE = (
     "fundamental right after the clock advance, are compared with the monitor's own share-weighted mean "
     "(rel 1e-12). Setup-time negative cases: duplicate component, component without outstanding shares. Case = "
     "one run; distinct = (seed, component shares); non-trivial = unequal shares and moving component prices."
-    ' Since the seeded rounds: ArbitrageAgent groups with full and partial access beside the index, static component fundamentals with a shock, share counts whose total exceeds 2**63 in every 11th run, compute_market_index / compute_fundamental_index among the judged getters, early times re-asked at every record, end-of-run comparison of the component list with the configuration.'
+    ' Since the seeded rounds: ArbitrageAgent groups with full and partial access beside the index, static component fundamentals with a shock, share counts whose total exceeds 2**63 in every 11th run, compute_market_index / compute_fundamental_index among the judged getters, early times re-asked at every record, end-of-run comparison of the component list with the configuration; the computed fundamental index at earlier times, the index read right after every change of a book (a component that is only quoted and cancelled, never traded, in one run of eleven), an index over another index.'
 )
 ASSUMPTIONS = ["weighted mean computed with math.fsum over the same getters of the components"]
 REQUIRED = {
-    "quick": {"index_values_checked": 12000, "fundamental_index_checked": 2000, "class/unequal_shares_run": 28,
+    "quick": {"index_values_checked": 12000, "fundamental_index_checked": 2000, "class/unequal_shares_run": 28, "class/index_over_an_index_run": 4, "class/index_read_right_after_a_cancel": 500,
               "class/component_shock_run": 10, "class/component_prices_moved_run": 30,
               "class/duplicate_component_refused": 4, "class/component_without_shares_refused": 4,
               "class/arbitrageur_full_access_run": 4, "class/arbitrageur_partial_access_run": 4,
               "class/shock_on_component_of_an_index_with_static_fundamentals": 6},
-    "thorough": {"index_values_checked": 600000, "fundamental_index_checked": 60000, "class/unequal_shares_run": 1200,
+    "thorough": {"index_values_checked": 600000, "fundamental_index_checked": 60000, "class/unequal_shares_run": 1200, "class/index_over_an_index_run": 150, "class/index_read_right_after_a_cancel": 25000,
                  "class/component_shock_run": 300, "class/component_prices_moved_run": 900,
                  "class/duplicate_component_refused": 150, "class/component_without_shares_refused": 150,
                  "class/arbitrageur_full_access_run": 120, "class/arbitrageur_partial_access_run": 120,
@@ -73,12 +73,28 @@ def gen_case(rng, tier, idx):
         cfg["IDX2"] = {"class": "IndexMarket", "tickSize": 0.5, "markets": spots[:2], "outstandingShares": 1000,
                        "marketPrice": 200.0}
         cfg["simulation"]["markets"].append("IDX2")
+    if idx % 11 == 3:
+        # an index over another index (which is a tradable market with its own price and shares) and a spot market
+        cfg["TOP"] = {"class": "IndexMarket", "tickSize": 0.5, "markets": ["IDX", rng.choice(spots)],
+                      "outstandingShares": 500, "marketPrice": 300.0}
+        cfg["simulation"]["markets"].append("TOP")
     mk = list(cfg["simulation"]["markets"])
     prog = gen_program(rng, "mixed")
     prog["p_act"] = 0.9
     cfg["A"] = {"class": "ScriptAgent", "numAgents": rng.randint(3, 6), "markets": mk, "cashAmount": 100000,
                 "assetVolume": 50, "program": prog}
     cfg["simulation"]["agents"].append("A")
+    if idx % 11 == 8:
+        # one component is only quoted, never traded: quotes away from each other and frequent cancels, so that its
+        # market price is its mid price and moves when a best quote is withdrawn
+        quiet = comps[0]
+        cfg["A"]["markets"] = [m for m in mk if m != quiet] or mk
+        cfg["QUOTE"] = {"class": "ScriptAgent", "numAgents": 3, "markets": [quiet], "cashAmount": 100000, "assetVolume": 50,
+                        "program": {"p_act": 1.0, "max_batch": 2, "actions": [
+                            [3, {"a": "limit", "side": "buy", "ref": "p0", "off": [-9, -2], "vol": [1, 3], "ttl": [None, 6]}],
+                            [3, {"a": "limit", "side": "sell", "ref": "p0", "off": [2, 9], "vol": [1, 3], "ttl": [None, 6]}],
+                            [4, {"a": "cancel", "which": "any"}]]}}
+        cfg["simulation"]["agents"].append("QUOTE")
     arb = rng.random() < 0.25 and idx % 11 != 5
     if arb:
         # the built-in index arbitrageur watches the index (it needs equal shares); with full access it trades, with
@@ -201,6 +217,21 @@ class C17Monitor:
                                        "components": [(m.name, m.get_fundamental_price(t), s) for m, s in zip(ms, sh)]})
                         self.dead = True
                         return
+        elif k in ("cancel_ret", "add_ret", "exec_ret") and self.sim is not None:
+            # right after every change of a book: the index as it is now
+            for im in self.idx:
+                ms, sh = self.comps(im)
+                exp = wmean([c.get_market_price() for c in ms], sh)
+                res.count("index_read_right_after_a_book_change")
+                if k == "cancel_ret":
+                    res.count("class/index_read_right_after_a_cancel")
+                for name, got in (("get_index()", im.get_index()), ("get_market_index(now)", im.get_market_index(im.get_time()))):
+                    if not close(got, exp):
+                        res.violation("index", "index-value-not-share-weighted-mean-of-component-prices",
+                                      {"index": im.name, "time": im.get_time(), "getter": name, "after": k, "observed": got,
+                                       "expected": exp, "components": [(c.name, c.get_market_price(), s_) for c, s_ in zip(ms, sh)]})
+                        self.dead = True
+                        return
         elif k == "log_write" and type(ev["log"]).__name__ in ("MarketStepBeginLog", "MarketStepEndLog"):
             m = ev["log"].market
             if not hasattr(m, "get_components"):
@@ -294,6 +325,8 @@ def run_case(case, res):
     sh = [cfg[c]["outstandingShares"] for c in cfg["IDX"]["markets"]]
     if len(set(sh)) > 1:
         res.count("class/unequal_shares_run")
+    if "TOP" in cfg:
+        res.count("class/index_over_an_index_run")
     if "SHOCK" in cfg:
         res.count("class/component_shock_run")
         if all(cfg[c].get("fundamentalVolatility", 0.0) == 0.0 and cfg[c].get("fundamentalDrift", 0.0) == 0.0
